@@ -367,6 +367,37 @@ func lexInterpret(c *Ctx, f, nextFn, peekFn, acceptFn *ssa.Function, states []*s
 			}
 		})
 	}
+	// keys of constant lookup tables indexed by the current rune (`typ, ok := punctuation[r]`)
+	tables := map[*ssa.Lookup]map[int64]bool{}
+	if cur != nil {
+		var bad string
+		allInstrs(f, func(i ssa.Instruction) {
+			lk, ok := i.(*ssa.Lookup)
+			if !ok || peelConv(lk.Index) != cur {
+				return
+			}
+			ld, ok := lk.X.(*ssa.UnOp)
+			if !ok {
+				return
+			}
+			g, ok := ld.X.(*ssa.Global)
+			if !ok {
+				return
+			}
+			keys, ok := globalMapIntKeys(c, g)
+			if !ok {
+				bad = "a lookup table indexed by the current rune is not a constant package-level map"
+				return
+			}
+			tables[lk] = keys
+			for k := range keys {
+				pts[k] = true
+			}
+		})
+		if bad != "" {
+			return nil, bad
+		}
+	}
 	// constants in predicate helpers the rune is passed to (isLetter(r) and the like)
 	if cur != nil {
 		allInstrs(f, func(i ssa.Instruction) {
@@ -429,6 +460,13 @@ func lexInterpret(c *Ctx, f, nextFn, peekFn, acceptFn *ssa.Function, states []*s
 			case *ssa.Const:
 				if bv, ok := constBool(x); ok {
 					return bv, true
+				}
+			case *ssa.Extract:
+				// the "present" flag of a lookup in a constant table indexed by the current rune
+				if lk, ok := x.Tuple.(*ssa.Lookup); ok && x.Index == 1 {
+					if keys, ok := tables[lk]; ok {
+						return keys[rep], true
+					}
 				}
 			case *ssa.UnOp:
 				if x.Op == token.NOT {
@@ -706,4 +744,60 @@ func evalRunePred(g *ssa.Function, par ssa.Value, rep int64) (bool, bool) {
 		prev, b = b, next
 	}
 	return false, false
+}
+
+// globalMapIntKeys: the integer keys of a package-level map that is built once in the package initialiser (make +
+// constant-key updates, then stored into the variable) and never written anywhere else in the module.
+func globalMapIntKeys(c *Ctx, g *ssa.Global) (map[int64]bool, bool) {
+	init := g.Pkg.Func("init")
+	if init == nil {
+		return nil, false
+	}
+	var mk ssa.Value
+	stores := 0
+	allInstrs(init, func(i ssa.Instruction) {
+		if st, ok := i.(*ssa.Store); ok && st.Addr == ssa.Value(g) {
+			stores++
+			mk = st.Val
+		}
+	})
+	if stores != 1 {
+		return nil, false
+	}
+	if _, ok := mk.(*ssa.MakeMap); !ok {
+		return nil, false
+	}
+	keys := map[int64]bool{}
+	okAll := true
+	allInstrs(init, func(i ssa.Instruction) {
+		if mu, ok := i.(*ssa.MapUpdate); ok && mu.Map == mk {
+			if k, isK := constInt(mu.Key); isK {
+				keys[k] = true
+			} else {
+				okAll = false
+			}
+		}
+	})
+	// no writer outside the initialiser
+	for _, fn := range c.w.ModFuncs {
+		allInstrs(fn, func(i ssa.Instruction) {
+			switch x := i.(type) {
+			case *ssa.Store:
+				if x.Addr == ssa.Value(g) {
+					okAll = false
+				}
+			case *ssa.MapUpdate:
+				if ld, ok := x.Map.(*ssa.UnOp); ok && ld.X == ssa.Value(g) {
+					okAll = false
+				}
+			case *ssa.Call:
+				if b, ok := x.Call.Value.(*ssa.Builtin); ok && (b.Name() == "delete" || b.Name() == "clear") && len(x.Call.Args) > 0 {
+					if ld, ok := x.Call.Args[0].(*ssa.UnOp); ok && ld.X == ssa.Value(g) {
+						okAll = false
+					}
+				}
+			}
+		})
+	}
+	return keys, okAll
 }
